@@ -48,6 +48,9 @@ impl StateMachine<'_> {
                         .paint(commit.chars().take(12).collect::<String>()),
                 )?;
             }
+        } else {
+            // Not a commit hash: an ordinary hunk line.
+            return Ok(false);
         }
         Ok(true)
     }
